@@ -1,5 +1,7 @@
 #!/bin/sh
-# usage: tools/allseeds.sh [jobs]  — runs every seeded breaking change on its own scratch copy (tools/seedscratch.sh); prints one line each
+# usage: tools/allseeds.sh [jobs]  — runs every seeded breaking change on its own scratch copy (tools/seedscratch.sh); prints one
+# line each and keeps the full output (failed obligations) in ${SEEDLOGS:-/tmp/seedlogs}/<seed>.log for tools/seedmeta.py
 cd /verif || exit 2
 J="${1:-3}"
-ls -d seeded/C*-* | xargs -n1 basename | xargs -P "$J" -I{} sh -c 'tools/seedscratch.sh {} 2>&1 | head -1'
+OUT="${SEEDLOGS:-/tmp/seedlogs}"; mkdir -p "$OUT"; export OUT
+ls -d seeded/C*-* | xargs -n1 basename | xargs -P "$J" -I{} sh -c 'tools/seedscratch.sh {} > "$OUT/{}.log" 2>&1; head -1 "$OUT/{}.log"'
